@@ -14,19 +14,23 @@ import (
 func gen(rt *rapid.T) xdsrig.Plan {
 	c := xdsrig.GenCfg{
 		MaxServers: 3, MinOps: 4, MaxOps: vk.Pick(24, 100),
-		WWatch: 16, WUnwatch: 7, WResp: 26, WBreak: 12, WGrant: 22, WRelease: 4, WAdvance: 4, WRestart: 2, WFailover: 8,
+		WWatch: 16, WUnwatch: 7, WResp: 26, WBreak: 12, WGrant: 22, WRelease: 4, WAdvance: 4, WRestart: 2, WFailover: 8, WRevert: 7,
 		UnknownPct: 0, HoldPct: 5, BadPct: 20, RefusePct: 40, IgnoreDel: false,
 	}
 	p := xdsrig.Gen(rt, c)
 	if rapid.IntRange(0, 9).Draw(rt, "prefix") < 8 {
 		pre := []xdsrig.Op{{K: "watch", T: rapid.IntRange(0, 1).Draw(rt, "pt"), N: xdsrig.GenName(rt)}}
+		// half of those start with an unreachable primary (-> fallback, if >= 2 servers)
+		if rapid.Bool().Draw(rt, "primary_down") {
+			pre = append(pre, xdsrig.Op{K: "grant", Accept: false})
+		}
 		p.Ops = append(pre, p.Ops...)
 	}
 	return p
 }
 
 // sigs in the order in which they are reported when several occur in one case
-var sigs = []string{xdsrig.SigFallbackNonActive, xdsrig.SigOrphanAfterRevert}
+var sigs = []string{xdsrig.SigFallbackNonActive}
 
 func run(t *testing.T, p xdsrig.Plan) vk.Result {
 	rep := xdsrig.Execute(t, p, xdsrig.AspFallback)
